@@ -47,6 +47,12 @@ def cases(ctx):
         w = None if wk == 0 else (rng.integers(1, 5, m) if wk == 1 else rng.uniform(0.1, 3, m))
         lead = tuple(int(x) for x in rng.integers(0, 3, int(rng.integers(0, 3))))
         M = rng.integers(0, 9, (*lead, K, K)) if rng.random() < 0.5 else rng.uniform(0, 5, (*lead, K, K))
+        if rng.random() < 0.2:  # weights / entries of another magnitude (importance weights of 1e-12, populations of 1e12): exact power-of-two scaling
+            c_ = 2.0 ** int(rng.choice([-60, -45, -30, 20, 40]))
+            if w is not None and w.dtype.kind == "f":
+                w = w * c_
+            if M.dtype.kind == "f":
+                M = M * c_
         yield {"classes": [str(c) if kind == 1 else int(c) for c in classes], "kind": kind, "idx_l": idx_l, "idx_p": idx_p, "w": w,
                "order": rng.permutation(K), "perm": rng.permutation(K), "colperm": rng.permutation(K), "rowperm": rng.permutation(K), "M": M,
                "alpha": float(rng.uniform(0.01, 0.5))}
@@ -75,7 +81,8 @@ def execute(ctx, case):
         tally[(l, p)] = tally.get((l, p), 0) + (1 if w is None else float(w[i]))
     for (l, p), v in tally.items():
         ref[order.index(l), order.index(p)] = v
-    C(cm.matrix.shape == (K, K) and np.allclose(cm.matrix, ref, rtol=1e-12, atol=1e-12), "matrix entry [i,j] is not the total weight of (label i, prediction j)", "cmx-build", got=cm.matrix, expected=ref)
+    at_ = 1e-12 * (float(np.abs(ref).max()) or 1.0)  # relative to the magnitude of the weights (importance weights of 1e-18 are data, too)
+    C(cm.matrix.shape == (K, K) and np.allclose(cm.matrix, ref, rtol=1e-12, atol=at_), "matrix entry [i,j] is not the total weight of (label i, prediction j)", "cmx-build", got=cm.matrix, expected=ref)
     C(list(cm.classes) == order, "classes are not in the requested order", "cmx-classes", got=list(cm.classes))
     # the same samples handed over in other containers: lists, tuples, pandas Series with a non-default index (a column of a
     # sorted / shuffled / filtered frame) - positions are what pairs label, prediction and weight, never index labels
@@ -91,14 +98,14 @@ def execute(ctx, case):
         except Exception as e:  # noqa: BLE001
             C(False, "constructor raised for the same samples in another container", "cmx-build-form", form=fname, exc=repr(e))
             continue
-        C(cmf.matrix.shape == (K, K) and np.allclose(np.asarray(cmf.matrix, dtype=float), ref, rtol=1e-12, atol=1e-12),
+        C(cmf.matrix.shape == (K, K) and np.allclose(np.asarray(cmf.matrix, dtype=float), ref, rtol=1e-12, atol=at_),
           "matrix differs when the same samples are given in another container", "cmx-build-form", form=fname, got=cmf.matrix, expected=ref)
     present = sorted(set(lab) | set(pred))
     if len(present) >= 2:  # default class order: sorted distinct values
         cm0 = ConfusionMatrix(labels=np.asarray(lab, dtype=dt), predictions=np.asarray(pred, dtype=dt), weights=w)
         if True:
             sub = [order.index(c) for c in present]
-            C(list(cm0.classes) == present and np.allclose(cm0.matrix, ref[np.ix_(sub, sub)], rtol=1e-12, atol=1e-12), "default class order is not the sorted distinct values", "cmx-default-classes")
+            C(list(cm0.classes) == present and np.allclose(cm0.matrix, ref[np.ix_(sub, sub)], rtol=1e-12, atol=at_), "default class order is not the sorted distinct values", "cmx-default-classes")
     # equivalent inputs
     perm = [order[i] for i in case["perm"]]
     pi = [order.index(c) for c in perm]
@@ -116,12 +123,12 @@ def execute(ctx, case):
         cols = [order[(k + i + int(case["perm"][0])) % K] for k in range(K)]
         d_mixed[r] = {c_: ref[i, order.index(c_)] for c_ in cols}
     cm5 = ConfusionMatrix(matrix=d_mixed)
-    C(np.allclose(cm5.matrix, ref) and list(cm5.classes) == order, "dict-of-dicts input whose rows list their keys in another order gives a different matrix", "cmx-dict-row-order")
+    C(np.allclose(cm5.matrix, ref, rtol=1e-12, atol=at_) and list(cm5.classes) == order, "dict-of-dicts input whose rows list their keys in another order gives a different matrix", "cmx-dict-row-order")
     ri = [order.index(c) for c in df.index]
-    C(np.allclose(cm2.matrix, refp) and list(cm2.classes) == perm, "dict-of-dicts input with a class permutation gives a different matrix", "cmx-dict")
-    C(np.allclose(cm3.matrix, refp) and list(cm3.classes) == perm, "DataFrame input (rows/columns permuted) with a class permutation gives a different matrix", "cmx-dataframe")
-    C(np.allclose(cm3b.matrix, ref[np.ix_(ri, ri)]) and list(cm3b.classes) == list(df.index), "DataFrame input without classes does not follow its row order", "cmx-dataframe-default")
-    C(np.allclose(cm4.matrix, ref) and list(cm4.classes) == order, "nested-list input gives a different matrix", "cmx-lists")
+    C(np.allclose(cm2.matrix, refp, rtol=1e-12, atol=at_) and list(cm2.classes) == perm, "dict-of-dicts input with a class permutation gives a different matrix", "cmx-dict")
+    C(np.allclose(cm3.matrix, refp, rtol=1e-12, atol=at_) and list(cm3.classes) == perm, "DataFrame input (rows/columns permuted) with a class permutation gives a different matrix", "cmx-dataframe")
+    C(np.allclose(cm3b.matrix, ref[np.ix_(ri, ri)], rtol=1e-12, atol=at_) and list(cm3b.classes) == list(df.index), "DataFrame input without classes does not follow its row order", "cmx-dataframe-default")
+    C(np.allclose(cm4.matrix, ref, rtol=1e-12, atol=at_) and list(cm4.classes) == order, "nested-list input gives a different matrix", "cmx-lists")
     # vectorised one-vs-all and per-class metrics
     M = case["M"]
     lead = M.shape[:-2]
@@ -142,6 +149,8 @@ def execute(ctx, case):
         vp = np.asarray(getattr(cp, nm)(**kw))
         # with float weights the cells differ by an ulp under reordering; sqrt(p(1-p)/n) turns that into ~1e-8 near p in {0,1}
         atol = 2e-7 if (is_ci and M.dtype.kind == "f") else 1e-12
+        fin_ = np.abs(v[np.isfinite(v)]) if v.dtype.kind in "fiu" else np.zeros(0)
+        atol = atol * min(1.0, float(fin_.max()) if fin_.size else 1.0)  # counts of tiny-weight matrices: relative, not absolute
         C(np.allclose(np.take(v, pi, axis=ax), vp, rtol=1e-12, atol=atol, equal_nan=True), "per-class metric not equivariant under class permutation", "cmx-perm", metric=nm, M=M)
     if len(lead) >= 1 and lead[0] >= 1:  # indexing a vectorised matrix commutes with per-class metrics
         i0 = int(case["order"][0]) % lead[0]
@@ -153,6 +162,6 @@ def execute(ctx, case):
     with np.errstate(all="ignore"):
         acc_ref = np.where(tot != 0, tr / np.where(tot == 0, 1, tot), np.nan)
     C(np.allclose(np.asarray(c.accuracy(), dtype=float), acc_ref, rtol=1e-12, atol=0, equal_nan=True), "accuracy is not trace over population", "cmx-accuracy")
-    C(np.allclose(np.asarray(c.pop(), dtype=float), tot, rtol=1e-12), "pop is not the total", "cmx-pop")
+    C(np.allclose(np.asarray(c.pop(), dtype=float), tot, rtol=1e-12, atol=0), "pop is not the total", "cmx-pop")
     sess.sig_counts[("case",) + sig + ("lead%d" % len(lead),)] += 1
     return bool(len(lab) >= 1 and (K >= 3 or any(a != b for a, b in zip(lab, pred))))
